@@ -171,20 +171,26 @@ def run_poll(world, rows, profile, client=None, role="primary", shared_args=None
                 warnings.simplefilter("ignore", category=RuntimeWarning)
                 warnings.simplefilter("ignore", category=DeprecationWarning)
                 warnings.simplefilter("ignore", category=pd.errors.PerformanceWarning)
-                res = client.get_estimates(
-                    cur,
-                    world["election_id"],
-                    world["office"],
-                    list(p["estimands"]),
-                    prediction_intervals=list(p["prediction_intervals"]),
-                    percent_reporting_threshold=p["threshold"],
-                    geographic_unit_type=world["unit_type"],
-                    raw_config=cfg,
-                    preprocessed_data=pre,
-                    **extra_kw,
-                    **client_kwargs(p),
-                )
-                rec.tables = {k: v.copy() for k, v in res.items()}
+                # `request_ids`: the request names another election / office / unit type than the world's (an operator
+                # mistake that the library rejects); `summary_only`: no estimate request at all in this poll, only the
+                # national-summary call on the client kept from the earlier polls
+                ids = dict(election_id=world["election_id"], office=world["office"], unit_type=world["unit_type"])
+                ids.update(p.get("request_ids") or {})
+                if not p.get("summary_only"):
+                    res = client.get_estimates(
+                        cur,
+                        ids["election_id"],
+                        ids["office"],
+                        list(p["estimands"]),
+                        prediction_intervals=list(p["prediction_intervals"]),
+                        percent_reporting_threshold=p["threshold"],
+                        geographic_unit_type=ids["unit_type"],
+                        raw_config=cfg,
+                        preprocessed_data=pre,
+                        **extra_kw,
+                        **client_kwargs(p),
+                    )
+                    rec.tables = {k: v.copy() for k, v in res.items()}
                 if national_summary is not None:
                     ns = client.get_national_summary_votes_estimates(
                         national_summary.get("weights"), national_summary.get("base", 0), list(national_summary["alphas"])
